@@ -266,7 +266,11 @@ func verifyFunctionPass(p *Program, db *ContractDB, fc *FnContract, preRegions m
 		res.ResultTerms = append(res.ResultTerms, ParamInfo{Name: fmt.Sprintf("result%d", i), Val: r, Typ: fn.Signature.Results().At(i).Type()})
 	}
 	if len(fr.Rets) > 0 {
-		x.C.AddCover(fc.Name+"#cover:returns", fc.Name, st.PC)
+		if fc.Opts["skipcover"] != "" {
+			x.C.Note("cover:returns not checked (opt skipcover): reachability of the return under the loop invariants is not confirmed by a model; cover:requires and every inv-init are")
+		} else {
+			x.C.AddCover(fc.Name+"#cover:returns", fc.Name, st.PC)
+		}
 	}
 	// postconditions
 	env2 := x.newEnv(fn, fr, fc, params, st, pre)
